@@ -11,7 +11,7 @@ from .. import gen, build, mcase, oracles
 from ..mapmodel import MapModel
 
 ID = "C08"
-CASES = {"quick": 700, "thorough": 60000}
+CASES = {"quick": 2000, "thorough": 60000}
 MIN_CASES_PER_SHARD = 15
 CASE_TIMEOUT = 120
 RULE = ("one case = generated map x trace (2..8 observations; outliers, sparse chains so that non-emitting states bridge the split) x "
@@ -119,6 +119,6 @@ def check_case(ctx, case):
 
 
 TECHNIQUE = "runtime monitoring: differential monitor, one-shot run vs incremental extension histories at every cut of the trace"
-LEVEL_TEXT = ("700 (quick) / 60k (thorough) traces x ~10 cut sets each (all single splits, all cut sets for n<=5): index, best probability and best "
+LEVEL_TEXT = ("{Q} (quick) / {T} (thorough) traces x ~10 cut sets each (all single splits, all cut sets for n<=5): index, best probability and best "
               "path of the incremental history must equal the one-shot result (paths up to exact ties). Held-on-observed.")
 LEVEL_NOTE = "Trusted: nothing beyond the executions. Traces <= 8 observations."
